@@ -215,6 +215,163 @@ func c17ReadPath(p *core.Program, r *core.Report) {
 	}
 }
 
+// condAtom: one atomic condition known to hold (V) at a program point.
+type condAtom struct {
+	E ast.Expr
+	V bool
+}
+
+// dominatingAtoms: the atomic conditions established on the way to target: enclosing if-arms, and
+// earlier guard clauses of enclosing blocks (if c { return/continue/break } with no else), with
+// && / || / ! split into atoms where the outcome fixes them.
+func dominatingAtoms(fi *core.FuncInfo, target ast.Node) []condAtom {
+	var pathTo []ast.Node
+	var cur []ast.Node
+	ast.Inspect(fi.Decl.Body, func(n ast.Node) bool {
+		if n == nil {
+			cur = cur[:len(cur)-1]
+			return true
+		}
+		cur = append(cur, n)
+		if n == target {
+			pathTo = append([]ast.Node{}, cur...)
+		}
+		return true
+	})
+	var out []condAtom
+	var split func(e ast.Expr, v bool)
+	split = func(e ast.Expr, v bool) {
+		e = ast.Unparen(e)
+		switch x := e.(type) {
+		case *ast.UnaryExpr:
+			if x.Op == token.NOT {
+				split(x.X, !v)
+				return
+			}
+		case *ast.BinaryExpr:
+			if (x.Op == token.LAND && v) || (x.Op == token.LOR && !v) {
+				split(x.X, v)
+				split(x.Y, v)
+				return
+			}
+			if x.Op == token.LAND || x.Op == token.LOR {
+				return // a disjunction that is true / conjunction that is false fixes no atom
+			}
+		}
+		out = append(out, condAtom{e, v})
+	}
+	for i, n := range pathTo {
+		var child ast.Node
+		if i+1 < len(pathTo) {
+			child = pathTo[i+1]
+		}
+		switch v := n.(type) {
+		case *ast.IfStmt:
+			if child == ast.Node(v.Body) {
+				split(v.Cond, true)
+			} else if v.Else != nil && child == v.Else {
+				split(v.Cond, false)
+			}
+		case *ast.BlockStmt:
+			for _, s := range v.List {
+				if s == child {
+					break
+				}
+				if ifs, ok := s.(*ast.IfStmt); ok && ifs.Else == nil && len(ifs.Body.List) >= 1 {
+					last := ifs.Body.List[len(ifs.Body.List)-1]
+					exits := false
+					switch l := last.(type) {
+					case *ast.ReturnStmt:
+						exits = true
+					case *ast.BranchStmt:
+						exits = l.Tok == token.CONTINUE || l.Tok == token.BREAK
+					case *ast.ExprStmt:
+						if call, ok := l.X.(*ast.CallExpr); ok {
+							if id, ok := call.Fun.(*ast.Ident); ok && id.Name == "panic" {
+								exits = true
+							}
+						}
+					}
+					if exits {
+						split(ifs.Cond, false)
+					}
+				}
+			}
+		}
+	}
+	return out
+}
+
+// resolver prints expressions with single-definition locals replaced by their definitions (so rules do
+// not depend on local names) and the receiver prefix removed.
+type resolver struct {
+	fi   *core.FuncInfo
+	info *types.Info
+	rn   string
+}
+
+func (rv *resolver) def(obj types.Object) ast.Expr {
+	var def ast.Expr
+	n := 0
+	ast.Inspect(rv.fi.Decl.Body, func(m ast.Node) bool {
+		if as, ok := m.(*ast.AssignStmt); ok && len(as.Lhs) == len(as.Rhs) {
+			for i, l := range as.Lhs {
+				if id, ok := l.(*ast.Ident); ok && rv.info.ObjectOf(id) == obj {
+					def = as.Rhs[i]
+					n++
+				}
+			}
+		}
+		return true
+	})
+	if n == 1 {
+		return def
+	}
+	return nil
+}
+
+func (rv *resolver) str(e ast.Expr) string { return rv.strd(e, 0) }
+
+func (rv *resolver) strd(e ast.Expr, depth int) string {
+	if e == nil {
+		return ""
+	}
+	if depth > 14 {
+		return stripSpaces(types.ExprString(e))
+	}
+	switch v := ast.Unparen(e).(type) {
+	case *ast.Ident:
+		if obj, ok := rv.info.ObjectOf(v).(*types.Var); ok && !obj.IsField() && obj.Parent() != nil && obj.Pkg() != nil && obj.Parent() != obj.Pkg().Scope() {
+			if d := rv.def(obj); d != nil {
+				return "(" + rv.strd(d, depth+1) + ")"
+			}
+		}
+		return v.Name
+	case *ast.SelectorExpr:
+		if id, ok := ast.Unparen(v.X).(*ast.Ident); ok && id.Name == rv.rn {
+			return v.Sel.Name
+		}
+		return rv.strd(v.X, depth+1) + "." + v.Sel.Name
+	case *ast.CallExpr:
+		var args []string
+		for _, a := range v.Args {
+			args = append(args, rv.strd(a, depth+1))
+		}
+		return rv.strd(v.Fun, depth+1) + "(" + strings.Join(args, ",") + ")"
+	case *ast.BinaryExpr:
+		return rv.strd(v.X, depth+1) + v.Op.String() + rv.strd(v.Y, depth+1)
+	case *ast.UnaryExpr:
+		return v.Op.String() + rv.strd(v.X, depth+1)
+	case *ast.SliceExpr:
+		return rv.strd(v.X, depth+1) + "[" + rv.strd(v.Low, depth+1) + ":" + rv.strd(v.High, depth+1) + "]"
+	case *ast.IndexExpr:
+		return rv.strd(v.X, depth+1) + "[" + rv.strd(v.Index, depth+1) + "]"
+	case *ast.BasicLit:
+		return v.Value
+	}
+	return stripSpaces(types.ExprString(e))
+}
+
 func c17Retention(p *core.Program, r *core.Report) {
 	pk := p.Pkg("logger/logfile")
 	if pk == nil {
@@ -225,18 +382,8 @@ func c17Retention(p *core.Program, r *core.Report) {
 		if fi.Pkg != pk || fi.Decl.Body == nil {
 			continue
 		}
-		rn := recvName(fi)
-		norm := func(e ast.Expr) string { return strings.ReplaceAll(stripSpaces(types.ExprString(e)), rn+".", "") }
-		localDef := func(name string) string {
-			def := ""
-			ast.Inspect(fi.Decl.Body, func(n ast.Node) bool {
-				if as, ok := n.(*ast.AssignStmt); ok && len(as.Lhs) == 1 && len(as.Rhs) == 1 && types.ExprString(as.Lhs[0]) == name {
-					def = norm(as.Rhs[0])
-				}
-				return true
-			})
-			return def
-		}
+		info := fi.Pkg.TypesInfo
+		rv := &resolver{fi: fi, info: info, rn: recvName(fi)}
 		ast.Inspect(fi.Decl.Body, func(n ast.Node) bool {
 			call, ok := n.(*ast.CallExpr)
 			if !ok {
@@ -247,10 +394,15 @@ func c17Retention(p *core.Program, r *core.Report) {
 				return true
 			}
 			found++
-			conds := dominatingConds(fi, call, norm)
-			has := func(pred func(string) bool) bool {
-				for _, c := range conds {
-					if pred(c) {
+			atoms := dominatingAtoms(fi, call)
+			// facts in canonical, name-free spelling
+			var facts []string
+			for _, a := range atoms {
+				facts = append(facts, condKey(info, rv.str, a.E, a.V))
+			}
+			hasFact := func(pred func(string) bool) bool {
+				for _, f := range facts {
+					if pred(f) {
 						return true
 					}
 				}
@@ -258,26 +410,41 @@ func c17Retention(p *core.Program, r *core.Report) {
 			}
 			base := core.FuncName(fi.Obj) + " os.Remove"
 			pos := p.Pos(call.Pos())
-			// own prefix: !HasPrefix(name, P+"-") where P := conf.logID
-			prefixVar := ""
-			okPrefix := has(func(c string) bool {
-				if strings.HasPrefix(c, "!strings.HasPrefix(name,") && strings.HasSuffix(c, `+"-")=false`) {
-					prefixVar = strings.TrimSuffix(strings.TrimPrefix(c, "!strings.HasPrefix(name,"), `+"-")=false`)
-					return true
-				}
-				return false
-			})
-			if okPrefix && prefixVar != "conf.logID" && localDef(prefixVar) != "conf.logID" {
-				okPrefix = false
+			if os.Getenv("C17_DEBUG") != "" {
+				fmt.Fprintln(os.Stderr, "facts:", strings.Join(facts, "\n  "), "\narg:", rv.str(call.Args[0]))
 			}
-			r.Check(okPrefix, "C17.retention", base+" own-prefix", pos, `entry name starts with logID+"-"`, `a file is deleted without testing that its name starts with the logger's own id followed by "-": files of another id sharing the leading characters are pruned`)
-			r.Check(has(func(c string) bool { return c == "len(date)!=8=false" }), "C17.retention", base+" dated", pos, "8-character date component", "a file without an 8-character date component can be deleted")
-			r.Check(has(func(c string) bool { return c == "nowUnit-fileUnit>int64(conf.keepDays)=true" }), "C17.retention", base+" expired", pos, "nowUnit-fileUnit > keepDays", "the age test is not `nowUnit - fileUnit > keepDays`: files still within the retention period can be deleted")
-			r.Check(has(func(c string) bool { return c == "conf.rotationEnabled==false=false" || c == "!conf.rotationEnabled=false" }), "C17.retention", base+" rotation", pos, "only with rotation enabled", "files are pruned although rotation is disabled")
-			r.Check(has(func(c string) bool { return c == "conf.keepDays<=0=false" }), "C17.retention", base+" keep-days", pos, "only with keepDays > 0", "files are pruned although keep-days is not positive")
-			r.Check(has(func(c string) bool { return c == "f.IsDir()=false" }), "C17.retention", base+" not-dir", pos, "directories skipped", "directories are not skipped")
-			arg := norm(call.Args[0])
-			okPath := arg == "filepath.Join(searchDir,f.Name())" && localDef("searchDir") == `filepath.Join(home,"logs")` && localDef("home") == "conf.homePath"
+			// the directory entry being judged: the thing whose Name() is removed
+			entryName := ""
+			arg := rv.str(call.Args[0])
+			if i := strings.LastIndex(arg, ","); i >= 0 && strings.HasSuffix(arg, ".Name())") {
+				entryName = strings.TrimSuffix(arg[i+1:], ")")
+			}
+			okPath := strings.HasPrefix(arg, `filepath.Join((filepath.Join((conf.homePath),"logs")),`) && entryName != ""
+			mentionsEntry := func(f string) bool { return entryName != "" && strings.Contains(f, entryName) }
+			r.Check(hasFact(func(f string) bool {
+				return strings.HasPrefix(f, "strings.HasPrefix(") && strings.HasSuffix(f, "=true") && mentionsEntry(f) && strings.Contains(f, `(conf.logID)+"-")`)
+			}), "C17.retention", base+" own-prefix", pos, `entry name starts with logID+"-"`, `a file is deleted without testing that its name starts with the logger's own id followed by "-": files of another id sharing the leading characters are pruned`)
+			r.Check(hasFact(func(f string) bool {
+				return strings.HasPrefix(f, "len(") && strings.HasSuffix(f, "==8=true") && mentionsEntry(f)
+			}), "C17.retention", base+" dated", pos, "8-character date component", "a file without an 8-character date component can be deleted")
+			r.Check(hasFact(func(f string) bool {
+				// <now unit> - <file unit> > keepDays   (or  <now unit> > <file unit> + keepDays)
+				if !strings.HasSuffix(f, "=true") || !strings.Contains(f, "conf.keepDays") || !mentionsEntry(f) || !strings.Contains(f, "DateUnitNow()") {
+					return false
+				}
+				i := strings.Index(f, ">")
+				if i < 0 || (i+1 < len(f) && f[i+1] == '=') {
+					return false
+				}
+				l, rr := f[:i], f[i+1:]
+				return (strings.Contains(l, "DateUnitNow()") && strings.Contains(l, "-") && strings.Contains(rr, "conf.keepDays") && !strings.Contains(rr, entryName)) ||
+					(strings.Contains(l, "DateUnitNow()") && !strings.Contains(l, entryName) && strings.Contains(rr, "+") && strings.Contains(rr, "conf.keepDays"))
+			}), "C17.retention", base+" expired", pos, "nowUnit-fileUnit > keepDays", "the age test is not `nowUnit - fileUnit > keepDays`: files still within the retention period can be deleted")
+			r.Check(hasFact(func(f string) bool {
+				return f == "conf.rotationEnabled=true" || f == "conf.rotationEnabled==false=false" || f == "conf.rotationEnabled==true=true"
+			}), "C17.retention", base+" rotation", pos, "only with rotation enabled", "files are pruned although rotation is disabled")
+			r.Check(hasFact(func(f string) bool { return f == "conf.keepDays>0=true" || f == "conf.keepDays>=1=true" }), "C17.retention", base+" keep-days", pos, "only with keepDays > 0", "files are pruned although keep-days is not positive")
+			r.Check(hasFact(func(f string) bool { return entryName != "" && f == strings.TrimSuffix(entryName, ".Name()")+".IsDir()=false" }), "C17.retention", base+" not-dir", pos, "directories skipped", "directories are not skipped")
 			r.Check(okPath, "C17.retention", base+" path", pos, "Join(<home>/logs, entry name)", "the removed path is `"+arg+"`, not an entry of <home>/logs")
 			return true
 		})
